@@ -75,9 +75,88 @@ class SymSet:
 
 
 def smatch(pat, s):
-    if pat != r"^(ark|scp)(,\w+)*:":
-        raise symex.Unsupported('regular expression %r' % pat)
-    return SBool(z3.InRe(s.z, TABLE_RE))
+    """re.match(pat, name) on a symbolic name: the pattern the code really uses is parsed with Python's own regex
+    parser and translated to a z3 regular expression (subset: literals, classes, \\w \\d \\s over ASCII, groups,
+    alternation, * + ? {m,n}, ^ and a final $); anything else is Unsupported"""
+    return SBool(z3.InRe(s.z, z3.Concat(re_to_z3(pat), z3.Full(z3.ReSort(S)))))
+
+
+def re_to_z3(pat):
+    import re
+    parser = getattr(re, '_parser', None)
+    if parser is None:
+        import sre_parse as parser
+    C = parser
+    try:
+        tree = parser.parse(pat)
+    except Exception as e:
+        raise symex.Unsupported('regular expression %r: %s' % (pat, e))
+    anyc = z3.AllChar(z3.ReSort(S))
+    empty = z3.Re('')
+
+    def cat(parts):
+        parts = [p_ for p_ in parts if p_ is not None]
+        if not parts:
+            return empty
+        r = parts[0]
+        for q in parts[1:]:
+            r = z3.Concat(r, q)
+        return r
+
+    def category(c):
+        if c == C.CATEGORY_WORD:
+            return _w
+        if c == C.CATEGORY_DIGIT:
+            return z3.Range('0', '9')
+        if c == C.CATEGORY_SPACE:
+            return z3.Union(z3.Re(' '), z3.Re('\t'), z3.Re('\n'), z3.Re('\r'))
+        raise symex.Unsupported('regular expression %r: category %s' % (pat, c))
+
+    def conv(seq, top=False):
+        out = []
+        items = list(seq)
+        for i, (op, av) in enumerate(items):
+            if op == C.LITERAL:
+                out.append(z3.Re(chr(av)))
+            elif op == C.ANY:
+                out.append(z3.Diff(anyc, z3.Re('\n')))
+            elif op == C.IN:
+                neg = False
+                alts = []
+                for (o2, a2) in av:
+                    if o2 == C.NEGATE:
+                        neg = True
+                    elif o2 == C.LITERAL:
+                        alts.append(z3.Re(chr(a2)))
+                    elif o2 == C.RANGE:
+                        alts.append(z3.Range(chr(a2[0]), chr(a2[1])))
+                    elif o2 == C.CATEGORY:
+                        alts.append(category(a2))
+                    else:
+                        raise symex.Unsupported('regular expression %r: class item %s' % (pat, o2))
+                u = alts[0] if len(alts) == 1 else z3.Union(*alts)
+                out.append(z3.Diff(anyc, u) if neg else u)
+            elif op == C.BRANCH:
+                brs = [conv(b) for b in av[1]]
+                out.append(brs[0] if len(brs) == 1 else z3.Union(*brs))
+            elif op == C.SUBPATTERN:
+                out.append(conv(av[-1]))
+            elif op in (C.MAX_REPEAT, C.MIN_REPEAT):
+                lo, hi, sub = av
+                r = conv(sub)
+                if hi == C.MAXREPEAT:
+                    rep = z3.Star(r) if lo == 0 else (z3.Plus(r) if lo == 1 else z3.Concat(cat([r] * lo), z3.Star(r)))
+                else:
+                    rep = z3.Loop(r, lo, hi)
+                out.append(rep)
+            elif op == C.AT:
+                if av == C.AT_BEGINNING and top and i == 0:
+                    continue
+                raise symex.Unsupported('regular expression %r: anchor %s' % (pat, av))
+            else:
+                raise symex.Unsupported('regular expression %r: construct %s' % (pat, op))
+        return cat(out)
+    return conv(tree, top=True)
 
 
 _w = z3.Union(z3.Range('a', 'z'), z3.Range('A', 'Z'), z3.Range('0', '9'), z3.Re('_'))
